@@ -34,6 +34,7 @@ let () =
   let family = if Array.length Sys.argv > 1 then Sys.argv.(1) else "codec" in
   let run = match family with
     | "session" -> run_session_line
+    | "frame" -> run_frame_line
     | _ -> run_codec in
   try
     while true do
